@@ -59,10 +59,14 @@ Theorem floor_hist_fee_first_refuted : ~ floor_hist_fee_first_full.
 Proof.
   intros H.
   specialize (H order_witness_state [order_witness_block]).
-  assert (floor_inv order_witness_state) as Hi by (unfold floor_inv; vm_compute; discriminate).
-  specialize (H Hi). vm_compute in H.
-  inversion H as [|? ? Hbad _]; subst. unfold floor_inv in Hbad. vm_compute in Hbad.
-  apply Hbad. reflexivity.
+  assert (fst (run_hist_fee_first order_witness_state [order_witness_block]) =
+          [mkF 1000000000 (5000000000 * E18) 40000000 40000000]) as Htr by (vm_compute; reflexivity).
+  rewrite Htr in H.
+  assert (floor_inv order_witness_state) as Hi.
+  { unfold floor_inv, order_witness_state. cbn [f_min f_base]. rewrite Z.div_mul by discriminate. lia. }
+  specialize (H Hi).
+  apply Forall_inv in H as Hbad. unfold floor_inv in Hbad. cbn [f_min f_base] in Hbad.
+  rewrite Z.div_mul in Hbad by discriminate. lia.
 Qed.
 
 (* the same history in the order of the code keeps it *)
